@@ -85,7 +85,7 @@ func (cap *commandArgParser) parseOneInput(arg *redisArg, argIndex int, started 
 		pms = PARSE_MULTI_VALUE
 	}
 
-	if arg.Token != "" && (!started || !arg.Multiple) {
+	if arg.Token != "" && (!started || !arg.Multiple || arg.MultipleToken) {
 		keyword, valid := ival.toString()
 		if !valid {
 			return
@@ -292,7 +292,7 @@ func (cap *commandArgParser) parseEachInput(args redisArgs, input ...respValue) 
 				return
 			}
 
-			if !foundMultiple && arg.Optional && arg.isToken() {
+			if arg.Optional && arg.isToken() {
 				// optional value args that have tokens can be reordered
 				skippedOptionals = append(skippedOptionals, arg)
 			}
@@ -341,9 +341,19 @@ func (cap *commandArgParser) parseEachInput(args redisArgs, input ...respValue) 
 					if subValid {
 						ipos += testLength
 						for _, k := range rightVals.order {
-							_, exists := values.get(k)
+							leftVal, exists := values.get(k)
 							if exists {
-								panic("reused argument conflict in arg definition")
+								// a repeatable argument that continues after other optional
+								// arguments (SORT ... GET a DESC GET b): join the value lists
+								leftArray, leftIsArray := leftVal.([]any)
+								rightArray, rightIsArray := rightVals.mustGet(k).([]any)
+								if !leftIsArray || !rightIsArray {
+									// the same single-value argument given twice
+									valid = false
+									return
+								}
+								values.set(k, append(leftArray, rightArray...))
+								continue
 							}
 							values.set(k, rightVals.mustGet(k))
 						}
